@@ -264,6 +264,24 @@ def memAllowed (root : MNode) (name : Name) : List Pkt :=
       let mx := es.foldl (fun m e => max m e.1) 0
       (es.filter (·.1 == mx)).map (·.2)
 
+/-- an operation issued while a transaction is open -/
+inductive TxItem where
+  | put (p : Put)
+  | remove (name : Name) (pfx : Bool)
+
+/-- Begin; items…; Commit on the memory store: `Put` goes to the transaction trie (`s.tx`), `Remove` acts on
+    the committed trie (`s.root.remove`) also while a transaction is open; Commit merges -/
+def txStep (acc : MNode × MNode) : TxItem → MNode × MNode
+  | .put p => (acc.1, memPut acc.2 p)
+  | .remove n pfx => (memRemove acc.1 n pfx, acc.2)
+
+def memStx (root : MNode) (items : List TxItem) : MNode :=
+  let r := items.foldl txStep (root, MNode.empty)
+  r.1.merge r.2
+
+def txPuts (items : List TxItem) : List Put := items.filterMap fun | .put p => some p | .remove .. => none
+def txRemoves (items : List TxItem) : List (Name × Bool) := items.filterMap fun | .remove n b => some (n, b) | .put _ => none
+
 /-! ### BoltStore (store_bolt.go) — B+tree bucket = list sorted by key bytes -/
 
 /-- `bytes.Compare a b < 0` -/
